@@ -8,7 +8,10 @@ import warnings; warnings.simplefilter('ignore')
 props = [json.loads(l) for l in open(os.path.join(HERE, 'properties.jsonl'))]
 checks = []
 claimed = set()
+CLAIMED = open(os.path.join(HERE, 'tools', 'claimed.txt')).read().split()
 for path in sorted(glob.glob(os.path.join(HERE, 'checks', 'c[0-9][0-9]_*.py'))):
+    if os.path.basename(path)[:3].upper() not in CLAIMED:
+        continue
     mod = importlib.import_module('checks.' + os.path.basename(path)[:-3])
     man = mod.MANIFEST
     claimed.add(mod.ID)
